@@ -772,3 +772,95 @@ func TestC15Unwritable(t *testing.T) {
 		ev.Case(evid.Hash("unwritable", len(login), newName, newAcc[:], pwKind, via), true, "unwritable-account-file", "via:"+via)
 	})
 }
+
+// TestC15OperatorFile: an account whose file is not named after its login (the operator wrote "imported-staff.yaml"
+// holding Login: staff - the repository's own test configuration has such a file; a crash in the middle of a rename
+// leaves one too).  Edits, password changes, renames and deletions made through the protocol must be what the
+// restarted server loads, exactly as for any other account.
+func TestC15OperatorFile(t *testing.T) {
+	ev := evid.New("C15", "TestC15OperatorFile")
+	defer ev.Flush()
+	rapid.Check(t, func(rt *rapid.T) {
+		login := rapid.SampledFrom([]string{"staff", "bob", "m"}).Draw(rt, "login")
+		file := rapid.SampledFrom([]string{"imported-%s.yaml", "zz-%s.yaml", "0-%s.yaml", "%s-old.yaml", "zed.yaml", "aaa.yaml"}).Draw(rt, "file")
+		if strings.Contains(file, "%s") {
+			file = fmt.Sprintf(file, login)
+		}
+		ops := rapid.SliceOfN(rapid.SampledFrom([]string{"edit", "password", "rename", "delete", "restart"}), 1, 4).Draw(rt, "ops")
+		old := hlsim.AccountSpec{Login: login, Name: "Original", Password: "oldpw", Access: hlref.AccessOf(hlref.PrivDownloadFile)}
+		var done []string
+		inWorld(rt, hlsim.Options{Accounts: []hlsim.AccountSpec{acct("admin", "Admin", "adminpw", allAccess), old}, Agreement: "a"}, func(rt *rapid.T, w *hlsim.World) {
+			must(os.Rename(filepath.Join(w.UsersDir, login+".yaml"), filepath.Join(w.UsersDir, file)))
+			if err := w.Restart(); err != nil {
+				rt.Fatalf("the server does not start with the account %q in the file %q: %v", login, file, err)
+			}
+			s := &c15state{rt: rt, w: w, model: map[string]*c15acct{}, ev: ev, pws: []string{"adminpw", "oldpw", "newpw"}}
+			s.reconnectAdmin()
+			cur := login
+			s.model[cur] = &c15acct{name: "Original", access: hlref.AccessOf(hlref.PrivDownloadFile), pw: "oldpw"}
+			check := func() {
+				ctx := fmt.Sprintf("account %q stored by the operator in %q, after [%s]", login, file, strings.Join(done, ", "))
+				s.history = done
+				s.checkList(ctx)
+				s.checkFreshManager(ctx)
+				for _, l := range []string{login, login + "2", login + "22", login + "222", login + "2222"} {
+					for _, p := range []string{"oldpw", "newpw"} {
+						s.expectLogin(l, p, ctx)
+					}
+				}
+			}
+			check()
+			for i, op := range ops {
+				a := s.model[cur]
+				switch op {
+				case "edit":
+					if a == nil {
+						continue
+					}
+					a.name = fmt.Sprintf("Edited %d", i)
+					a.access = hlref.AccessOf(hlref.PrivDownloadFile, hlref.PrivReadChat)
+					s.mustReply(s.admin.Request(hlref.TranSetUser, hlref.F(hlref.FUserLogin, hlref.Obfuscate([]byte(cur))), sfld(hlref.FUserName, a.name), hlref.F(hlref.FUserAccess, a.access[:]), hlref.F(hlref.FUserPassword, []byte{0})), "set-user")
+				case "password":
+					if a == nil {
+						continue
+					}
+					a.pw = "newpw"
+					s.mustReply(s.admin.Request(hlref.TranSetUser, hlref.F(hlref.FUserLogin, hlref.Obfuscate([]byte(cur))), sfld(hlref.FUserName, a.name), hlref.F(hlref.FUserAccess, a.access[:]), hlref.F(hlref.FUserPassword, hlref.Obfuscate([]byte("newpw")))), "set-user")
+				case "rename":
+					if a == nil {
+						continue
+					}
+					nl := cur + "2"
+					s.mustReply(s.admin.Request(hlref.TranUpdateUser, hlref.F(hlref.FData, subFields(hlref.F(hlref.FData, hlref.Obfuscate([]byte(cur))), hlref.F(hlref.FUserLogin, hlref.Obfuscate([]byte(nl))),
+						sfld(hlref.FUserName, a.name), hlref.F(hlref.FUserAccess, a.access[:]), hlref.F(hlref.FUserPassword, []byte{0})))), "update-user (rename)")
+					delete(s.model, cur)
+					s.model[nl] = a
+					cur = nl
+				case "delete":
+					if a == nil {
+						continue
+					}
+					s.mustReply(s.admin.Request(hlref.TranDeleteUser, hlref.F(hlref.FUserLogin, hlref.Obfuscate([]byte(cur)))), "delete-user")
+					delete(s.model, cur)
+				case "restart":
+					if err := w.Restart(); err != nil {
+						rt.Fatalf("restart after [%s]: %v", strings.Join(done, ", "), err)
+					}
+					s.reconnectAdmin()
+				}
+				done = append(done, op)
+				check()
+			}
+			if err := w.Restart(); err != nil {
+				rt.Fatalf("restart after [%s]: %v", strings.Join(done, ", "), err)
+			}
+			s.reconnectAdmin()
+			done = append(done, "restart")
+			check()
+		})
+		ev.Case(evid.Hash("opfile", login, file, strings.Join(ops, ",")), len(done) > 1, "operator-named-file", fmt.Sprintf("ops:%d", len(done)))
+		if ev.WantSample() {
+			ev.Sample(map[string]any{"login": login, "file": file, "operations": done})
+		}
+	})
+}
